@@ -94,6 +94,20 @@ type clus struct {
 	*mockcluster.Cluster
 	failAlloc int32
 	scanHook  func() // set before a tick starts (gated scenario only): runs inside ScanRegions, i.e. inside the recovery scan
+	// storesHook runs inside GetStores, i.e. inside checkStoreStatus (read lock held), gated scenarios only
+	storesHook func()
+	// allocFailEvery > 0: every n-th id allocation fails (free-running fault rounds)
+	allocFailEvery int64
+	allocs         int64
+}
+
+// GetStores is what checkStoreStatus reads.
+func (c *clus) GetStores() []*core.StoreInfo {
+	res := c.Cluster.GetStores()
+	if c.storesHook != nil {
+		c.storesHook()
+	}
+	return res
 }
 
 // ScanRegions takes the cluster lock (the mock's own ScanRegions reads the tree without it, which
@@ -108,6 +122,9 @@ func (c *clus) ScanRegions(startKey, endKey []byte, limit int) []*core.RegionInf
 
 func (c *clus) AllocID() (uint64, error) {
 	if atomic.LoadInt32(&c.failAlloc) != 0 {
+		return 0, errors.New("c19: injected id allocation failure")
+	}
+	if n := atomic.LoadInt64(&c.allocFailEvery); n > 0 && atomic.AddInt64(&c.allocs, 1)%n == 0 {
 		return 0, errors.New("c19: injected id allocation failure")
 	}
 	return c.Cluster.AllocID()
@@ -246,6 +263,13 @@ func (w *world) observe() (grpc pair, http pair) {
 	if h.Mode == modeDR {
 		http.State, http.ID = h.DrAutoSync.State, h.DrAutoSync.StateID
 	}
+	// get-edit: a caller may do anything with the objects it was handed; the next answer must not care
+	st.Mode = pb.ReplicationMode_MAJORITY
+	if d := st.DrAutoSync; d != nil {
+		d.State, d.LabelKey, d.WaitSyncTimeoutHint = (d.State+1)%3, "scribbled", -1
+	}
+	h.Mode = "scribbled"
+	h.DrAutoSync.State, h.DrAutoSync.LabelKey, h.DrAutoSync.StateID = "scribbled", "scribbled", 1<<62
 	return
 }
 
@@ -612,6 +636,25 @@ func (w *world) call(ci callInfo, f func() error) error {
 				runtime.Gosched()
 			}
 		}()
+		// heartbeats that change nothing (an up store refreshing its timestamp, a region repeating its
+		// last report) keep arriving while the call runs: the model stays exact, the code paths overlap
+		wg.Add(1)
+		go func() {
+			defer wg.Done()
+			for i := 0; atomic.LoadInt32(&stop) == 0; i++ {
+				if len(w.stores) > 0 {
+					s := w.stores[i%len(w.stores)]
+					w.setStore(s, s.Up)
+				}
+				if len(w.regs) > 0 {
+					if g := w.regs[(i*7)%len(w.regs)]; g.present {
+						w.put(g, g.hasStatus, g.stID, g.st)
+					}
+				}
+				w.r.Count("neutral_heartbeats_during_calls", 2)
+				runtime.Gosched()
+			}
+		}()
 	}
 
 	var err error
@@ -752,8 +795,16 @@ func (w *world) call(ci callInfo, f func() error) error {
 	}
 
 	// --- concurrent reader: nothing may be seen before it is persisted and offered ---
+	var maxSeen uint64
 	for _, o := range obs {
 		r.Count("reader_observations", 1)
+		if o.P.dr() {
+			// every publish carries a newer id: one reader never sees the served id go back
+			if o.P.ID < maxSeen {
+				r.Violation("state-id-reused:reader-saw-older-id-again", fmt.Sprintf("a concurrent reader saw state id %d after it had seen %d", o.P.ID, maxSeen), wit())
+			}
+			maxSeen = o.P.ID
+		}
 		if !o.P.dr() || o.P == pre {
 			continue
 		}
